@@ -35,6 +35,8 @@ package schemahelper
 //@   loop 1 iter [C07,C16] len(dk.Labels) == old(len(dk.Labels)) + ite(labelSchema.IsDepKey, 1, 0) && implies(labelSchema.IsDepKey, dk.Labels[len(dk.Labels)-1].Index == i && dk.Labels[len(dk.Labels)-1].Value == block.Labels[i])
 //@   assert before lang.TraversalToAddress#1 : [C16] typeis(attr.Expr, "*hclsyntax.ScopeTraversalExpr")
 //@   ghost evaluated after invoke:Value#1 : true
+//@   ghost decoded after ast.DecodeBody#1 : true
+//@   loop 2 iter [C16,C14,C07,name:key-attributes-are-looked-up-in-the-decoded-body-of-either-syntax] decoded
 //@   loop 2 iter [C15,C16,name:a-key-value-that-evaluates-is-a-key] implies(evaluated && !value.IsNull(), len(dk.Attributes) == old(len(dk.Attributes)) + 1 && dk.Attributes[len(dk.Attributes)-1].Name == name && dk.Attributes[len(dk.Attributes)-1].Expr.Static == value)
 
 // ---- every element is examined: the loops below have no break and no return inside, i.e. they are left only
